@@ -457,7 +457,10 @@ impl<'r> Renderer<'r> {
     }
 
     /// An implicit key in a flow context: single line. Returns whether adjacency after ':' is allowed.
-    fn flow_implicit_key(&mut self, k: &ANode, block_n: isize, pair_in_seq: bool) -> bool {
+    fn flow_implicit_key(&mut self, k: &ANode, block_n: isize, pair_in_seq: bool, multi: bool) -> bool {
+        // the key of a flow *mapping* entry is an ordinary flow node and may span lines; the key of
+        // a single pair in a flow sequence may not
+        let multi = multi && !pair_in_seq && self.r.chance(1, 4);
         match &k.kind {
             AKind::Scalar(t) => {
                 let (p, aid, tag) = self.props(k);
@@ -465,8 +468,11 @@ impl<'r> Renderer<'r> {
                     self.out.push_str(&p);
                     self.out.push(' ');
                 }
-                let ctx = self.flow_ctx(block_n, true);
-                let style = self.put_flow_scalar(t, ctx, false, !p.is_empty(), Some(pair_in_seq), pair_in_seq);
+                let ctx = self.flow_ctx(block_n, !multi);
+                if multi {
+                    self.note("multi-line-flow-mapping-key");
+                }
+                let style = self.put_flow_scalar(t, ctx, multi, !p.is_empty(), Some(pair_in_seq), pair_in_seq);
                 self.ev.push(SEv::Scalar { v: t.clone(), style, aid, tag });
                 style != ScalarStyle::Plain
             }
@@ -477,7 +483,7 @@ impl<'r> Renderer<'r> {
                 false
             }
             AKind::Seq(_) | AKind::Map(_) => {
-                self.flow_node(k, block_n, false);
+                self.flow_node(k, block_n, multi);
                 true
             }
             _ => unreachable!(),
@@ -538,7 +544,7 @@ impl<'r> Renderer<'r> {
             self.flow_value_after_colon(v, block_n, multi, false);
             return;
         }
-        let adjacent_ok = self.flow_implicit_key(k, block_n, false);
+        let adjacent_ok = self.flow_implicit_key(k, block_n, false, multi);
         if null_plain(v) && self.r.chance(1, 3) {
             // `{k}`
             self.ev.push(SEv::Scalar { v: String::new(), style: ScalarStyle::Plain, aid: 0, tag: None });
@@ -587,7 +593,7 @@ impl<'r> Renderer<'r> {
                         self.out.push(':');
                         self.flow_value_after_colon(v, block_n, multi, false);
                     } else {
-                        let adjacent_ok = self.flow_implicit_key(k, block_n, true);
+                        let adjacent_ok = self.flow_implicit_key(k, block_n, true, false);
                         if self.r.chance(1, 8) {
                             self.out.push(' ');
                         }
